@@ -78,6 +78,7 @@ def gen_task(rng, tree, scene, k):
     uid   = 'task.%06d' % k
     tsbox = tree.psbox + '/' + uid
     ins, outs, produce = [], [], {}
+    ndir = 0
     used_targets = set()
     info = {'in': [], 'out': []}       # (index, source abs, target abs, action, expect_ok) for the monitor
     for _ in range(rng.choice([0, 1, 1, 2, 3, 4])):
@@ -93,13 +94,19 @@ def gen_task(rng, tree, scene, k):
         tgt_abs = os.path.join(tsbox, tname or os.path.basename(src))
         if rng.random() < 0.15 and action != 'Tarball':
             tgt_abs = os.path.join(tree.psbox, 'staged', 'p%d.dat' % scene.n); tname = 'x'
+        # the target in directory form (`in.dat > inputs/`): the source goes INTO that directory under its own name
+        dirform = None
+        if action != 'Tarball' and rng.random() < 0.18:
+            dirform = os.path.join(rng.choice([tsbox, tsbox, tree.psbox + '/staged']), rng.choice(['inputs_%d' % k, 'dir_%d/in' % scene.n]))
+            tgt_abs = os.path.join(dirform, os.path.basename(src)); tname = 'x'
         if tgt_abs in used_targets: continue
         used_targets.add(tgt_abs)
-        if action in ('Transfer', 'Copy', 'Move', 'Tarball') and rng.random() < 0.2:
+        if action in ('Transfer', 'Copy', 'Move', 'Tarball') and rng.random() < 0.2 and not (dirform and action == 'Move'):
             # the target already exists with other content of the same length (an earlier task staged it)
             scene.n += 1; scene.files[tgt_abs] = scene.n
         s_ref = ref(rng, tree, tsbox, src, dflt)
         t_ref = ref(rng, tree, tsbox, tgt_abs, tsbox) if tname else None
+        if dirform: t_ref = ref(rng, tree, tsbox, dirform, tsbox) + '/'
         if action == 'Transfer' and rng.random() < 0.6 and '://' not in s_ref and (t_ref is None or '://' not in t_ref or True):
             # string short forms
             if t_ref is None: sd = s_ref
@@ -110,8 +117,8 @@ def gen_task(rng, tree, scene, k):
             sd = {'source': s_ref, 'action': action}
             if t_ref is not None: sd['target'] = t_ref
             if action == 'Transfer' and rng.random() < 0.5: del sd['action']
-        ins.append(sd)
-        info['in'].append((len(ins) - 1, src, tgt_abs, action, not missing))
+        ins.append(sd); ndir += bool(dirform)
+        info['in'].append((len(ins) - 1, src, tgt_abs, action, not missing and not (dirform and action == 'Link')))
     for _ in range(rng.choice([0, 1, 1, 2, 3])):
         action = rng.choice(['Transfer', 'Transfer', 'Copy', 'Link', 'Move'])
         scene.n += 1
@@ -125,23 +132,28 @@ def gen_task(rng, tree, scene, k):
             tdir, dflt = rng.choice([tree.psbox + '/keep', tree.ssbox + '/keep', tsbox + '/copy']), tsbox
         explicit = rng.random() < 0.6 or tdir != dflt
         tgt_abs = os.path.join(tdir, 'o%d.dat' % scene.n) if explicit else os.path.join(dflt, os.path.basename(oname))
+        dirform = None
+        if action != 'Link' and rng.random() < 0.18:
+            dirform = os.path.join(tdir, 'results_%d' % k); explicit = True
+            tgt_abs = os.path.join(dirform, os.path.basename(oname))
         if tgt_abs in used_targets or tgt_abs == src: continue
         used_targets.add(tgt_abs)
-        if action in ('Transfer', 'Copy', 'Move') and rng.random() < 0.2:
+        if action in ('Transfer', 'Copy', 'Move') and rng.random() < 0.2 and not (dirform and action == 'Move'):
             scene.n += 1; scene.files[tgt_abs] = scene.n
         s_ref = ref(rng, tree, tsbox, src, tsbox)
         t_ref = ref(rng, tree, tsbox, tgt_abs, dflt) if explicit else None
+        if dirform: t_ref = ref(rng, tree, tsbox, dirform, dflt) + '/'
         if action == 'Transfer' and rng.random() < 0.5:
             sd = s_ref if t_ref is None else '%s > %s' % (s_ref, t_ref)
         else:
             sd = {'source': s_ref, 'action': action}
             if t_ref is not None: sd['target'] = t_ref
-        outs.append(sd)
+        outs.append(sd); ndir += bool(dirform)
         info['out'].append((len(outs) - 1, src, tgt_abs, action, not missing))
     outcome = rng.choice(['DONE', 'DONE', 'DONE', 'FAILED', 'CANCELED'])
     descr = {'executable': '/bin/true', 'input_staging': ins, 'output_staging': outs,
              'stage_on_error': rng.random() < 0.4}
-    return {'uid': uid, 'descr': descr, 'outcome': outcome, 'produce': produce, 'info': info, 'tsbox': tsbox, 'pilot': rng.choice([0, 0, 1])}
+    return {'uid': uid, 'descr': descr, 'outcome': outcome, 'produce': produce, 'info': info, 'tsbox': tsbox, 'pilot': rng.choice([0, 0, 1]), 'ndir': ndir}
 
 
 def read_tree(tree, ids):
@@ -430,7 +442,7 @@ def run(ctx):
                             cu_ops.append({'op': 'complete', 'ctx': [[k, v] for k, v in cx[cn].items()], 'p': p})
                             try:
                                 u = complete_url(p, cx[cn])
-                                cu_impl.append({'schema': u.schema or '', 'host': u.host or '', 'segs': segs(u.path)})
+                                cu_impl.append({'schema': u.schema or '', 'host': u.host or '', 'segs': segs(u.path), 'dir': (u.path or '').endswith('/')})
                             except ValueError: cu_impl.append({'err': 'ValueError'})
             # ... and with the sandboxes held as ru.Url objects, the way Pilot.stage_in / stage_out hold their contexts:
             # the directives of a task are resolved one after the other against the SAME context
@@ -446,7 +458,7 @@ def run(ctx):
                             cu_ops.append({'op': 'complete', 'ctx': [[k, v] for k, v in cx['agent'].items()], 'p': p})
                             try:
                                 u = complete_url(p, ucx)
-                                cu_impl.append({'schema': u.schema or '', 'host': u.host or '', 'segs': segs(u.path)})
+                                cu_impl.append({'schema': u.schema or '', 'host': u.host or '', 'segs': segs(u.path), 'dir': (u.path or '').endswith('/')})
                             except ValueError: cu_impl.append({'err': 'ValueError'})
                             moved = [k for k in ucx if str(ucx[k]) != str(ru.Url(cx['agent'][k]))]
                             if moved:
@@ -469,6 +481,7 @@ def run(ctx):
             dist['runs'] += 1; dist['tasks'] += len(gts)
             for g in gts:
                 st = final.get(g['uid']); dist['states'][st] = dist['states'].get(st, 0) + 1
+                dist['dir_form_targets'] = dist.get('dir_form_targets', 0) + g.get('ndir', 0)
                 dist['missing_source'] += any(not x[4] for x in g['info']['in'] + g['info']['out'])
                 dist['stage_on_error_failed'] += g['outcome'] != 'DONE' and g['descr']['stage_on_error']
             ctx.case({'run': run_i, 'tasks': [g['descr'] for g in gts]}, nontrivial=any(g['info']['in'] or g['info']['out'] for g in gts))
